@@ -79,11 +79,11 @@ fn eof_kind_lemma(lens: [usize; 3]) {
 
 /// Chunked body, terminator discipline (paths that do not format a size line): from either state of the
 /// "terminated" flag: the terminator is written exactly once; after it nothing is ever written.
-fn chunked_terminator_lemma() {
-    let ended: bool = kani::any();
+/// `ended`/`first_is_eof` concrete per call: with symbolic flags CBMC cannot rule out the size-line formatting path
+/// (core::fmt) for the late chunk below and encodes it (>45 min, 13 GB).
+fn chunked_terminator_lemma(ended: bool, first_is_eof: bool) {
     let mut te = TransferEncoding { kind: TransferEncodingKind::Chunked(ended) };
     let mut dst = BytesMut::with_capacity(32);
-    let first_is_eof: bool = kani::any();
     if first_is_eof {
         let r = te.encode_eof(&mut dst);
         assert!(r.is_ok());
@@ -105,6 +105,11 @@ fn chunked_terminator_lemma() {
     kani::cover!(ended, "already terminated");
     forget(dst);
 }
+
+// NOT harnessed (measured twice): a NON-empty chunk in chunked mode.  Its size line is produced by
+// `writeln!(MutWriter(buf), "{:X}\r", len)`, i.e. core::fmt; a harness encoding one concrete 3-byte chunk
+// did not finish in 25 minutes (with the tracing stub, unlimited stack).  The hex rendering of the chunk
+// size is therefore outside the claim (seed C02b lives exactly there and is missed).
 
 #[kani::proof]
 #[kani::stub(tracing::callsite::DefaultCallsite::register, stub_tracing_register)]
@@ -135,8 +140,13 @@ fn c02_until_close_body() {
 #[kani::stub(tracing::callsite::DefaultCallsite::register, stub_tracing_register)]
 #[kani::unwind(14)]
 fn c02_chunked_terminator() {
-    chunked_terminator_lemma();
+    // the state space of the terminator logic is 2 flags: enumerated completely
+    chunked_terminator_lemma(false, false);
+    chunked_terminator_lemma(false, true);
+    chunked_terminator_lemma(true, false);
+    chunked_terminator_lemma(true, true);
 }
+
 
 #[cfg(test)]
 mod playback {
